@@ -5,6 +5,10 @@
 package nmsub
 
 import (
+	"github.com/nspcc-dev/neo-go/pkg/interop"
+	"github.com/nspcc-dev/neo-go/pkg/interop/contract"
+	"github.com/nspcc-dev/neo-go/pkg/interop/iterator"
+	"github.com/nspcc-dev/neo-go/pkg/interop/native/std"
 	"github.com/nspcc-dev/neo-go/pkg/interop/runtime"
 	"github.com/nspcc-dev/neo-go/pkg/interop/storage"
 )
@@ -54,4 +58,37 @@ func Last() int {
 		return -1
 	}
 	return c.(int)
+}
+
+// Observe records what the Netmap contract answers for its two candidate lists
+// at this very point of the block (slot numbers are the simulator's): the only
+// way to see the candidate set a tick later in the same block publishes.
+func Observe(netmap interop.Hash160, slot int) {
+	ctx := storage.GetContext()
+	leg := contract.Call(netmap, "netmapCandidates", contract.ReadOnly)
+	storage.Put(ctx, append([]byte("obsL"), std.Serialize(slot)...), std.Serialize(leg))
+	it := contract.Call(netmap, "listCandidates", contract.ReadOnly).(iterator.Iterator)
+	var l []any
+	for iterator.Next(it) {
+		l = append(l, iterator.Value(it))
+	}
+	storage.Put(ctx, append([]byte("obsS"), std.Serialize(slot)...), std.Serialize(l))
+}
+
+// ObservedLegacy returns the legacy candidate list recorded under slot.
+func ObservedLegacy(slot int) any {
+	v := storage.Get(storage.GetReadOnlyContext(), append([]byte("obsL"), std.Serialize(slot)...))
+	if v == nil {
+		return nil
+	}
+	return std.Deserialize(v.([]byte))
+}
+
+// ObservedStructured returns the structured candidate list recorded under slot.
+func ObservedStructured(slot int) any {
+	v := storage.Get(storage.GetReadOnlyContext(), append([]byte("obsS"), std.Serialize(slot)...))
+	if v == nil {
+		return nil
+	}
+	return std.Deserialize(v.([]byte))
 }
